@@ -199,7 +199,8 @@ def run(ctx):
     swap_ok = False
     swapped_local = None
     buf = None
-    for w in [n for n in ast.walk(flush.node) if isinstance(n, ast.With) and self_attr(n.items[0].context_expr) in lock_fields]:
+    for w in [n for m_ in sorted(flusher_side, key=lambda x: x.name) for n in ast.walk(m_.node)
+              if isinstance(n, ast.With) and self_attr(n.items[0].context_expr) in lock_fields]:
         reads = [n for n in w.body if isinstance(n, ast.Assign) and self_attr(n.value) in shared and isinstance(n.targets[0], ast.Name)]
         installs = [n for n in w.body if isinstance(n, ast.Assign) and any(self_attr(t) in shared for t in n.targets)]
         if reads and installs and self_attr(reads[0].value) == self_attr(installs[0].targets[0]) and reads[0].lineno < installs[0].lineno:
@@ -341,7 +342,7 @@ def final_flush(target, flush):
     body = target.node.body
     loops = [i for i, s in enumerate(body) if isinstance(s, ast.While)]
     if len(loops) != 1:
-        return False, 'thread function has %d top-level loops' % len(loops)
+        raise AnalysisError('thread function has %d top-level loops: shape not modelled' % len(loops))
     i = loops[0]
     w = body[i]
     tests_stop = any(isinstance(n, ast.Call) and isinstance(n.func, ast.Attribute) and n.func.attr == 'is_set' for n in ast.walk(w.test))
